@@ -26,6 +26,8 @@ func scenDev(c *vf.Ctx) {
 			cfg.GateU = true
 		case wd == "manual":
 			cfg.Manual = true
+		case wd == "thr4":
+			cfg.Threads = []string{"c1", "c2", "c3", "c4"}
 		case strings.HasPrefix(wd, "pt:"):
 			cfg.Points = append(cfg.Points, wd[3:])
 		}
@@ -46,9 +48,15 @@ func scenDev(c *vf.Ctx) {
 	ended := endAll(w, func(w *sys.World) string { return "retnil" })
 	res := probe(w, ts)
 	for i, l := range w.Lines {
-		b, _ := json.Marshal(l.Obs)
 		sb, _ := json.Marshal(l.Stim)
-		fmt.Printf("%3d %s -> %s where=%v\n", i, sb, b, l.Where)
+		ab, _ := json.Marshal(l.Obs.App)
+		lb, _ := json.Marshal(l.Obs.Lib)
+		nb, _ := json.Marshal(l.Obs.NewW)
+		extra := ""
+		if os.Getenv("VERIF_WHERE") != "" {
+			extra = fmt.Sprint(" where=", l.Where)
+		}
+		fmt.Printf("%3d %s -> %s %s closed=%v unb=%v %s%s\n", i, sb, ab, lb, l.Obs.Closed, l.Obs.Unb, nb, extra)
 	}
 	fmt.Printf("ended=%v probe=%q\n", ended, res)
 	r := &sysRun{Cfg: cfg, Lines: w.Lines, Direct: w.Direct, Origin: "scendev"}
